@@ -223,6 +223,8 @@ class Interp:
             return sym.KSeq(self.seq_term(v)[1])
         if isinstance(v, (VTuple, VNone, VStr)):
             return sym.K_ELEM
+        if isinstance(v, VObj) and isinstance(self.st.heap[v.loc].fields.get('__ref__'), VRef):
+            return sym.K_OBJ        # a modelled object that also has an identity among the symbolic references
         raise Unsupported('kind of %r' % (v,))
 
     def as_elem(self, v):
@@ -256,6 +258,9 @@ class Interp:
                 return sym.f_tup(z3.Empty(sym.SeqElemS))
             if k is sym.K_ELEM:
                 return sym.f_tup(t)
+        if isinstance(v, VCallable):
+            # a user callable used as a datum (e.g. as a dictionary key): one opaque value per callable
+            return sym.str_elem('callable:' + v.name)
         raise Unsupported('cannot treat %r as opaque data' % (v,))
 
     def term_of(self, v, kind):
@@ -276,6 +281,8 @@ class Interp:
             raise Unsupported('sequence kind mismatch: %s vs %s' % (kind, k))
         if hasattr(v, 't') and v.t is not None and v.t.sort() == kind.sort:
             return v.t
+        if kind is sym.K_OBJ and isinstance(v, VObj) and isinstance(self.st.heap[v.loc].fields.get('__ref__'), VRef):
+            return self.st.heap[v.loc].fields['__ref__'].t
         raise Unsupported('cannot coerce %r to %s' % (v, kind))
 
     def eq(self, a, b, identity=False):
@@ -1755,6 +1762,19 @@ class Interp:
             if h is None and 'call_default' in self.spec_funcs:
                 return self.spec_funcs['call_default'](self, 'method', key, recv, args, kwargs)
             if h is None:
+                bad = []
+                try:
+                    bad = self.index.incompatible_overrides((recv.cls or '').rstrip('?'), name, len(args), set(kwargs))
+                except Exception:
+                    bad = []
+                if bad:
+                    # the receiver is an arbitrary node of that class or of a subclass: the call must be acceptable to every
+                    # override (otherwise it raises TypeError for some graphs, typically after part of an edit has been done)
+                    self.oblige('call_on_an_arbitrary_node_is_accepted_by_every_override_of_' + name, False, kind='callsite',
+                                note='%s(...) with %d positional and keywords %s is not accepted by %s'
+                                     % (key, len(args), sorted(kwargs), ', '.join(bad)))
+                    self.st.obligations[-1].props = ['C15', 'C01']
+                    raise PathEnd()
                 raise Unsupported('method %s on symbolic reference' % key)
             return h(self, recv, args, kwargs)
         if isinstance(recv, VSeq):
